@@ -263,6 +263,59 @@ example : convertStringF .d (strtoDec binary64) [49, 101, 51, 57] false = .ok (n
 example : (Generated.Text.numberDispatch.filter (fun x => x.1 ∈ [102, 100, 101])).map (·.2.1) =
     ["mpt_cfloat", "mpt_cdouble", "mpt_cldouble"] := by decide
 
+/-- the target types of the `mpt_c*` integer wrappers: the fixed-width ones and the native `char`, `int`, `long`,
+    `unsigned char`, `unsigned int`, `unsigned long` (LP64: sizes from the regenerated table) -/
+def wrapperTys : List (String × Ty) :=
+  [("mpt_cint8", .b), ("mpt_cint16", .n), ("mpt_cint32", .i), ("mpt_cint64", .x),
+   ("mpt_cchar", .b), ("mpt_cint", .i), ("mpt_clong", .x),
+   ("mpt_cuint8", .y), ("mpt_cuint16", .q), ("mpt_cuint32", .u), ("mpt_cuint64", .t),
+   ("mpt_cuchar", .y), ("mpt_cuint", .u), ("mpt_culong", .t)]
+
+/-- Text -> integer through the wrappers called directly (`mpt_cint8(val, src, 0, NULL)` ... `mpt_culong`), base 0:
+    never undefined, an accepted call consumed a numeral of an in-range number which the stored object denotes, and
+    the query has the verdict and count of the storing call. -/
+theorem text_wrapper_exact (name : String) (tgt : Ty) (hw : (name, tgt) ∈ wrapperTys) (s : List Nat) (d : Bool) :
+    verdict (runWrapper name s 0 d) ≠ .broken ∧
+    (∀ o n, runWrapper name s 0 d = .ok (o, n) → TextOK tgt s d o n) ∧
+    runWrapper name s 0 false = dropValue (runWrapper name s 0 true) := by
+  have hall : ∀ w ∈ wrapperTys, (match wrapperTarget w.1 with
+      | some (p, size) => checkParser p size w.2
+      | none => false) = true := by decide
+  have := hall (name, tgt) hw
+  simp only [runWrapper]
+  cases hwt : wrapperTarget name with
+  | none => simp [hwt] at this
+  | some ps =>
+    obtain ⟨p, size⟩ := ps
+    simp only [hwt] at this
+    exact runParser_sound p size tgt s d this
+
+example : runWrapper "mpt_cchar" [45, 49, 50, 56] 0 true = .ok (some 128, 4) := by decide
+example : runWrapper "mpt_cuchar" [50, 53, 54] 0 true = .err .BadValue := by decide
+
+/-- The target code `'l'` (`long`): every integer converter rewrites it to `mpt_type_int(sizeof(long))` = `'x'` before
+    its switch, and so does `mpt_convert_number` (its own `case 'l'` behind the rewrite is dead): a conversion to `'l'`
+    is the conversion to `'x'`, to which `int_exact`, `float_to_int_refused` and `text_int_exact` apply. -/
+theorem long_alias (src : Ty) (s : Src) (d : Bool) :
+    convLong src s d = conv src .x s d ∧ Generated.Text.numberAlias = some (108, Ty.x.code) := by
+  refine ⟨?_, by decide⟩
+  have hall : ∀ ty ∈ Ty.all, ((fnOf ty).map fun f => decide (f.resolve 108 = f.resolve 120) ||
+      ((f.lookup 108).isNone && (f.lookup 120).isNone && decide (f.resolve 108 ∉ f.vectors) &&
+        decide (f.resolve 120 ∉ f.vectors))).getD true = true := by
+    decide
+  have hrun : ∀ (f : Fn) a b, f.resolve a = f.resolve b → f.run a s d = f.run b s d := by
+    intro f a b h; simp only [Fn.run, Fn.lookup, h]
+  have hs := hall src (by cases src <;> simp [Ty.all])
+  simp only [convLong, conv]
+  cases hf : fnOf src with
+  | none => rfl
+  | some f =>
+    simp only [hf, Option.map, Option.getD, Bool.or_eq_true, Bool.and_eq_true, decide_eq_true_eq,
+      Option.isNone_iff_eq_none] at hs
+    rcases hs with hs | ⟨⟨⟨h1, h2⟩, h3⟩, h4⟩
+    · simp only [hrun f 108 120 hs, show Ty.x.code = 120 from rfl]
+    · simp only [show Ty.x.code = 120 from rfl, Fn.run, h1, h2, h3, h4, if_false]
+
 /-- Values passed through a variadic call (`mpt_process_vararg` / `mpt_value_argv`, regenerated `argvTable`): every
     case fetches the promoted type of what it stores and reports its size, so an integer of any of the nine integer
     types arrives unchanged in the typed iterator (and is then converted under the theorems above). -/
